@@ -223,11 +223,14 @@ def run(chk):
             ladds = [c for c in l.calls("TasGrid::CompleteStorage::add")]
             if not ladds and not is_reachable(fn, v):
                 continue
-            for c in ladds:
-                ok = must_pass_after(l, c, lambda x: x.get("k") == "BinaryOperator" and x.get("op") == "=" and txt(strip(x["c"][0])) == "any_done" and txt(strip(x["c"][1])) == "true")
-                chk.ob("C17-D4.sites", name, "collector flags a stored sample", bool(ok), l.loc(c))
+            # the flag is the bool local that every return statement of the collector returns
             rets = [r for r in walk(l.body) if r.get("k") == "ReturnStmt"]
-            chk.ob("C17-D4.sites", name, "collector returns the flag", all(txt(strip(r["c"][0])) == "any_done" for r in rets) and bool(rets), l.where)
+            flags = {var_of(r["c"][0]) for r in rets if r.get("c")}
+            flag = next(iter(flags)) if len(flags) == 1 and None not in flags else None
+            for c in ladds:
+                ok = flag is not None and must_pass_after(l, c, lambda x: x.get("k") == "BinaryOperator" and x.get("op") == "=" and var_of(x["c"][0]) == flag and txt(strip(x["c"][1])) == "true")
+                chk.ob("C17-D4.sites", name, "collector flags a stored sample", bool(ok), l.loc(c))
+            chk.ob("C17-D4.sites", name, "collector returns the flag", flag is not None and bool(rets), l.where)
             # main loop
             for c in fn.walk(into_lambda=False):
                 if c.get("k") == "CXXOperatorCallExpr" and c.get("op") == "()" and var_of(c["c"][1]) == ckv["did"] and is_reachable(fn, c):
